@@ -711,6 +711,7 @@ _SIG_KEY: T.Tuple[str, ...] = ()
 _SIG_MODS: T.List[T.Any] = []
 
 
+_DICT_NAMES: T.Set[str] = set()               # module-level NAME = {...} (display or comprehension), assigned once: a table without None values
 _RECORDS: T.Dict[str, T.List[str]] = {}        # NamedTuple / dataclass record classes of the modules: class name -> field names in order
 _RET_RECORD: T.Dict[str, str] = {}             # function name -> record class it is annotated to return (unique per name)
 _TABLES: T.Dict[str, ast.Dict] = {}            # module-level NAME = {const: const, ...}, assigned once
@@ -735,6 +736,10 @@ def _collect_constants(m: T.Any) -> None:
             else:
                 into.pop(tgt, None)
             if into is _CONSTS:
+                if isinstance(val, (ast.Dict, ast.DictComp)) and seen[tgt] == 1 and not any(isinstance(v, ast.Constant) and v.value is None for v in getattr(val, 'values', [])):
+                    _DICT_NAMES.add(tgt)
+                else:
+                    _DICT_NAMES.discard(tgt)
                 if isinstance(val, ast.Dict) and seen[tgt] == 1 and 1 <= len(val.keys) <= 8 and all(isinstance(k, ast.Constant) for k in val.keys) \
                         and all(isinstance(v, ast.Constant) for v in val.values):
                     _TABLES[tgt] = val
@@ -767,6 +772,7 @@ def set_signatures(*mods: T.Any) -> None:
     _TABLES.clear()
     _RECORDS.clear()
     _RET_RECORD.clear()
+    _DICT_NAMES.clear()
     for m in mods:
         for q, c in m.classes().items():
             if '.' in q or '#' in q:
@@ -804,6 +810,45 @@ def set_signatures(*mods: T.Any) -> None:
             else:
                 _SIGS[name] = sig
     _SIG_KEY = key
+
+
+def _unpartial(c: ast.Call) -> ast.Call:
+    """`functools.partial(f, a, k=v)(b, j=w)` is the call `f(a, b, k=v, j=w)` (later keywords win)"""
+    f = c.func
+    if isinstance(f, ast.Call) and not any(isinstance(a, ast.Starred) for a in f.args) and f.args:
+        g = f.func
+        if (isinstance(g, ast.Attribute) and g.attr == 'partial' and isinstance(g.value, ast.Name) and g.value.id == 'functools') or (isinstance(g, ast.Name) and g.id == 'partial'):
+            if any(k.arg is None for k in f.keywords + c.keywords):
+                return c
+            later = {k.arg for k in c.keywords}
+            kws = [k for k in f.keywords if k.arg not in later] + list(c.keywords)
+            return ast.Call(func=f.args[0], args=list(f.args[1:]) + list(c.args), keywords=kws)
+    return c
+
+
+def _table_get(e: T.Any) -> T.Optional[T.Tuple[ast.AST, ast.AST]]:
+    """(M, k) for `M.get(k)` on a module-level table M (a dict display / comprehension without None values)"""
+    if isinstance(e, ast.Call) and isinstance(e.func, ast.Attribute) and e.func.attr == 'get' and isinstance(e.func.value, ast.Name) \
+            and e.func.value.id in _DICT_NAMES and len(e.args) == 1 and not e.keywords:
+        return e.func.value, e.args[0]
+    return None
+
+
+def _canon_get(e: T.Any) -> T.Any:
+    """on a table without None values: `M.get(k) is None` is `k not in M`; where `M.get(k)` is subscripted or searched it is `M[k]`"""
+    if isinstance(e, ast.Compare) and len(e.ops) == 1:
+        g = _table_get(e.left)
+        c0 = e.comparators[0]
+        if g is not None and isinstance(e.ops[0], (ast.Is, ast.IsNot)) and isinstance(c0, ast.Constant) and c0.value is None:
+            return ast.Compare(left=g[1], ops=[ast.NotIn() if isinstance(e.ops[0], ast.Is) else ast.In()], comparators=[g[0]])
+        g2 = _table_get(c0)
+        if g2 is not None and isinstance(e.ops[0], (ast.In, ast.NotIn)):
+            return ast.Compare(left=e.left, ops=e.ops, comparators=[ast.Subscript(value=g2[0], slice=g2[1], ctx=ast.Load())])
+    if isinstance(e, ast.Subscript) and isinstance(e.ctx, ast.Load):
+        g = _table_get(e.value)
+        if g is not None:
+            return ast.Subscript(value=ast.Subscript(value=g[0], slice=g[1], ctx=ast.Load()), slice=e.slice, ctx=ast.Load())
+    return e
 
 
 def _canon_record(e: T.Any) -> T.Any:
@@ -926,11 +971,13 @@ def fsub(env: T.Dict[str, ast.AST], e: T.Any, blocked: T.FrozenSet[str] = frozen
         else:
             vals[name] = old
     if not changed:
-        return _canon_record(canon_call(e)) if isinstance(e, ast.Call) else _canon_record(e)
+        if isinstance(e, ast.Call):
+            return _canon_record(canon_call(_unpartial(e)))
+        return _canon_get(_canon_record(e))
     node = e.__class__(**vals)
     if isinstance(node, ast.Call):
-        node = canon_call(node)
-    node = _canon_record(node)
+        node = canon_call(_unpartial(node))
+    node = _canon_get(_canon_record(node))
     return ast.copy_location(node, e) if hasattr(e, 'lineno') and not hasattr(node, 'lineno') else node
 
 
